@@ -119,7 +119,7 @@ ProbeResult probe(Harness &h, const std::string &prop, const std::string &tier, 
 	pid_t pid = fork();
 	if (pid == 0) {
 		close(fds[0]);
-		alarm(600);
+		alarm(h.watchdog_s(prop, tier));
 		RunCtx ctx; ctx.prop = prop; ctx.tier = tier; ctx.replaying = true; ctx.log.keep = trace;
 		Stats st; ctx.stats = &st;
 		h.execute(plan, ctx);
@@ -272,7 +272,7 @@ int cmd_run(Harness &h, const Args &a) {
 	for (int64_t r = a.from; r < a.to; r++) {
 		uint64_t runseed = mix_seed(a.seed, (uint64_t)r);
 		fprintf(g_out, "START %lld\n", (long long)r); fflush(g_out);
-		alarm(600);   // generous: only a genuine hang of code without yield points should ever reach it
+		alarm(h.watchdog_s(a.prop, a.tier));   // generous: only a genuine hang of code without yield points should ever reach it
 		Json plan = h.generate(a.prop, runseed, a.tier);
 		RunCtx ctx; ctx.prop = a.prop; ctx.tier = a.tier; ctx.runseed = runseed; ctx.run = r; ctx.stats = &st;
 		ctx.crumb("generate");
